@@ -96,6 +96,7 @@ type vfC17Rig struct {
 	fillStuck  int32 // != 0: pool.filling stayed true with no fill in progress
 	inDial     int32
 	lastEv     int64 // unix nano of the last hook / dial activity
+	lastTick   int64 // canary ticks at that moment (load-normalised idle time)
 	calls      sync.WaitGroup
 }
 
@@ -114,7 +115,10 @@ func (d *vfC17Dialer) DialHost(ctx context.Context, host *HostInfo) (*DialedHost
 	return d.base.DialHost(ctx, host)
 }
 
-func (r *vfC17Rig) touch() { atomic.StoreInt64(&r.lastEv, time.Now().UnixNano()) }
+func (r *vfC17Rig) touch() {
+	atomic.StoreInt64(&r.lastEv, time.Now().UnixNano())
+	atomic.StoreInt64(&r.lastTick, vfC17TickCount())
+}
 
 func (r *vfC17Rig) dial(ctx context.Context) (*DialedHost, error) {
 	atomic.AddInt32(&r.inDial, 1)
@@ -371,7 +375,8 @@ func (r *vfC17Rig) await(exp vfC17Proj, d time.Duration) (vfC17Proj, bool) {
 		// (a fill that is still to end - the model says filling = FALSE, the pool still says TRUE - is
 		// waited for up to the deadline: fillingStopped sleeps before it takes the lock)
 		if i > 50 && !(got.Filling && !exp.Filling) && atomic.LoadInt32(&r.inDial) == r.parkedDials() &&
-			time.Since(time.Unix(0, atomic.LoadInt64(&r.lastEv))) > 2500*time.Millisecond {
+			time.Since(time.Unix(0, atomic.LoadInt64(&r.lastEv))) > 2500*time.Millisecond &&
+			vfC17TickCount()-atomic.LoadInt64(&r.lastTick) > 2*vfC17QuietTicks {
 			return got, false
 		}
 		if i < 50 {
